@@ -91,6 +91,42 @@ begin|end       { return 1; }
 \a\b\f\r\v    { return 8; }
 %%
 ''',
+ 'anchors': r'''
+%%
+^a             { return 1; }
+a              { return 2; }
+b$             { return 3; }
+b              { return 4; }
+cd/ef          { return 5; }
+cdef           { return 6; }
+cd             { return 7; }
+^x+/y          { return 8; }
+x+             { return 9; }
+^[ \t]*\n      { return 10; }
+\n             { return 11; }
+%%
+''',
+ 'nest': r'''
+%s INC1 INC2
+%x EXC1 EXC2
+%%
+<INC1>{
+  p            { return 1; }
+  <EXC1>q      { return 2; }
+  <INC2,EXC2>{
+     r         { return 3; }
+     ^s        { return 4; }
+  }
+}
+<EXC1,EXC2>t   { return 5; }
+<*>u           { return 6; }
+<INITIAL>v     { return 7; }
+w              { return 8; }
+^w2            { return 9; }
+<EXC2><<EOF>>  { return 10; }
+<INC2>[a-z]    { return 11; }
+%%
+''',
  'sc': r'''
 %x XA XB
 %s SI
@@ -125,7 +161,7 @@ def language_variants(thorough=False):
             for rej in (False, True):
                 if rej and tn.startswith(('Cf', 'CF')): continue       # refused by flex
                 if rej and not thorough and tn not in ('Cem', 'C'): continue
-                if name in ('sc',) and tn.startswith('CF'): continue    # -CF with a ^ rule does not compile today (D1)
+                if name in ('sc', 'anchors', 'nest') and tn.startswith('CF'): continue    # -CF with a ^ rule does not compile today (D1)
                 opts = ['noyywrap', '8bit'] + topts + (['reject'] if rej else [])
                 spec = ''.join('%%option %s\n' % o for o in opts) + body.lstrip('\n')
                 out.append(variants.Variant('lang_%s_%s%s' % (name, tn, '_rej' if rej else ''), 'nr', (), opts, raw_spec=spec))
